@@ -364,7 +364,8 @@ pub fn case_enc(cx: &mut Ctx, spec: &PktSpec, lim: Option<Option<usize>>) {
     case_trace(cx, spec, lim);
     // lim: None = to_bytes (default), Some(None) = unlimited, Some(Some(n)) = with_limit
     let limtok = match lim {
-        None => "default".to_string(),
+        // the default limit depends on the crate's `udp` feature (1280 / 64000)
+        None => if cfg!(feature = "udp") { "defaultudp".to_string() } else { "default".to_string() },
         Some(None) => "none".to_string(),
         Some(Some(n)) => n.to_string(),
     };
@@ -380,10 +381,6 @@ pub fn case_enc(cx: &mut Ctx, spec: &PktSpec, lim: Option<Option<usize>>) {
     cx.case(&line, &show_bytes(&r));
     // ---- direct oracles (C01 wire image, C04 limit) on well-formed specs only
     let tkl_ok = spec.tok.len() <= 8 && (spec.vtt & 15) as usize == spec.tok.len();
-    if !tkl_ok {
-        return;
-    }
-    cx.nontrivial(&line);
     let so = spec.sorted_opts();
     let too_long = so.iter().any(|(_, v)| v.len() > 65804);
     let sent = if spec.code.class() != MessageClass::Empty { spec.payload.len() } else { 0 };
@@ -392,6 +389,21 @@ pub fn case_enc(cx: &mut Ctx, spec: &PktSpec, lim: Option<Option<usize>>) {
         None => Some(Packet::MAX_SIZE),
         Some(x) => x,
     };
+    if !tkl_ok {
+        // header and token out of step (the header was replaced after set_token, or the token
+        // length was set by hand): there is no RFC image, but the size clause of C04 still
+        // applies to the bytes that ARE written: 4 + token + options + payload
+        if let (Some(res), false) = (&r, too_long) {
+            let fits = limit.map_or(true, |l| explen <= l);
+            match res {
+                Ok(bytes) if !fits || bytes.len() != explen => cx.oracle_fail("C04", &line, &format!("{} bytes written, exact length {}, limit {:?}", bytes.len(), explen, limit)),
+                Err(e) if fits => cx.oracle_fail("C04", &line, &format!("exact length {} is within limit {:?} but serialisation failed with {}", explen, limit, errname(e))),
+                _ => {}
+            }
+        }
+        return;
+    }
+    cx.nontrivial(&line);
     match &r {
         None => cx.oracle_fail("C04", &line, "serialiser panicked"),
         Some(res) => {
@@ -446,7 +458,7 @@ pub fn case_enc(cx: &mut Ctx, spec: &PktSpec, lim: Option<Option<usize>>) {
 pub fn case_trace(cx: &mut Ctx, spec: &PktSpec, lim: Option<Option<usize>>) {
     use coap_lite::verif::{take_copy_trace, CopyEvent};
     let limtok = match lim {
-        None => "default".to_string(),
+        None => if cfg!(feature = "udp") { "defaultudp".to_string() } else { "default".to_string() },
         Some(None) => "none".to_string(),
         Some(Some(n)) => n.to_string(),
     };
@@ -1024,6 +1036,15 @@ pub fn run(cx: &mut Ctx, _replay: Option<&str>) {
                     case_enc(cx, &spec, Some(Some(l)));
                     case_enc(cx, &spec, None);
                     case_enc(cx, &spec, Some(None));
+                    // same message whose header says another token length than the token has
+                    // (header replaced after set_token): the limit applies to the bytes written
+                    for other in [0u8, 8, 3] {
+                        if other as usize != tk {
+                            let specd = PktSpec { vtt: 0x40 | other, ..spec.clone() };
+                            case_enc(cx, &specd, Some(Some(l)));
+                            case_enc(cx, &specd, None);
+                        }
+                    }
                     // same message with code 0.00: payload is not sent, so only 4+tk bytes count
                     let spec0 = PktSpec { code: CodeSpec::Byte(0), ..spec.clone() };
                     case_enc(cx, &spec0, Some(Some(l)));
